@@ -95,6 +95,8 @@ h19b!(c19_line_k3, 3, 6, false);
 h19b!(c19_line_k4, 4, 7, false);
 h19b!(c19_line_k5, 5, 8, false);
 h19b!(c19_line_k6, 6, 9, false);
+h19b!(c19_line_k7, 7, 10, false);
+h19b!(c19_line_k8, 8, 11, false);
 h19b!(c19_line_witness, 3, 6, true);
 
 // ---- H19c: span -> (start of first line, end of last line), from any state --------------------
@@ -133,6 +135,8 @@ h19c!(c19_span_k3, 3, 6);
 h19c!(c19_span_k4, 4, 7);
 h19c!(c19_span_k5, 5, 8);
 h19c!(c19_span_k6, 6, 9);
+h19c!(c19_span_k7, 7, 10);
+h19c!(c19_span_k8, 8, 11);
 
 // ---- texts ---------------------------------------------------------------------------------------
 
